@@ -18,8 +18,17 @@ struct FileCfg {
     width: usize,
     crlf: bool,
     lens: Vec<usize>,
-    /// header line of record i is ">s<i+1>" plus this suffix (exercises the offsets)
+    /// header line of record i is "><name i>" plus this suffix (exercises the offsets)
     header_suffix: String,
+    /// record names; default s1, s2, ...
+    #[serde(default)]
+    names: Vec<String>,
+}
+
+impl FileCfg {
+    fn name(&self, r: usize) -> String {
+        self.names.get(r).cloned().unwrap_or_else(|| format!("s{}", r + 1))
+    }
 }
 
 fn seq_of(rec: usize, len: usize) -> Vec<u8> {
@@ -37,14 +46,14 @@ fn build(cfg: &FileCfg) -> (Vec<u8>, String, Vec<Vec<u8>>) {
     let mut seqs = vec![];
     for (r, &len) in cfg.lens.iter().enumerate() {
         let s = seq_of(r, len);
-        file.extend_from_slice(format!(">s{}{}", r + 1, cfg.header_suffix).as_bytes());
+        file.extend_from_slice(format!(">{}{}", cfg.name(r), cfg.header_suffix).as_bytes());
         file.extend_from_slice(nl);
         let off = file.len();
         for ch in s.chunks(cfg.width) {
             file.extend_from_slice(ch);
             file.extend_from_slice(nl);
         }
-        fai.push_str(&format!("s{}\t{}\t{}\t{}\t{}\n", r + 1, len, off, cfg.width, cfg.width + nl.len()));
+        fai.push_str(&format!("{}\t{}\t{}\t{}\t{}\n", cfg.name(r), len, off, cfg.width, cfg.width + nl.len()));
         seqs.push(s);
     }
     (file, fai, seqs)
@@ -70,8 +79,8 @@ struct Query {
     how: How,
 }
 
-fn run_query<R: std::io::Read + std::io::Seek>(rd: &mut IndexedReader<R>, q: &Query) -> std::io::Result<Vec<u8>> {
-    let name = format!("s{}", q.rec + 1);
+fn run_query<R: std::io::Read + std::io::Seek>(rd: &mut IndexedReader<R>, q: &Query, cfg: &FileCfg) -> std::io::Result<Vec<u8>> {
+    let name = cfg.name(q.rec);
     match q.how {
         How::NameRead | How::NameIter => rd.fetch(&name, q.start, q.stop)?,
         How::RidIter | How::RidRead => rd.fetch_by_rid(q.rec, q.start, q.stop)?,
@@ -106,7 +115,7 @@ fn query_check(cfg: &FileCfg, sched: &Schedule, q: &Query, truncate_at: Option<u
     let r = guard(|| {
         let index = Index::new(fai.as_bytes()).expect("index parses");
         let mut rd = IndexedReader::with_index(Env::new(data, sched.clone()).with_max_calls(200 + 40 * file.len()), index);
-        run_query(&mut rd, q).map_err(|e| e.to_string())
+        run_query(&mut rd, q, cfg).map_err(|e| e.to_string())
     });
     let class = if truncate_at.is_some() { "truncated" } else { "complete" };
     match r {
@@ -154,7 +163,7 @@ fn history_check(cfg: &FileCfg, sched: &Schedule, ops: &[Op], cc: &mut CaseCtx) 
         let mut outs: Vec<Result<Vec<u8>, String>> = vec![];
         for op in ops {
             match op {
-                Op::Q(q) => outs.push(run_query(&mut rd, q).map_err(|e| e.to_string())),
+                Op::Q(q) => outs.push(run_query(&mut rd, q, cfg).map_err(|e| e.to_string())),
                 Op::Partial(q, k) => {
                     let r = (|| -> std::io::Result<Vec<u8>> {
                         rd.fetch_by_rid(q.rec, q.start, q.stop)?;
@@ -214,20 +223,22 @@ fn error_clauses(cfg: &FileCfg, cc: &mut CaseCtx) {
         // unknown name / rid
         let mut rd = mk();
         v.push(("unknown-name", rd.fetch("nope", 0, 0).is_err() && rd.fetch_all("nope").is_err()));
+        let n0 = cfg.name(0);
+        let n0 = n0.as_str();
         let mut rd = mk();
         v.push(("rid-out-of-range", rd.fetch_by_rid(cfg.lens.len(), 0, 0).is_err() && rd.fetch_all_by_rid(cfg.lens.len() + 7).is_err()));
         // inverted interval
         if len0 >= 1 {
             let mut rd = mk();
-            let f = rd.fetch("s1", 1, 0);
+            let f = rd.fetch(n0, 1, 0);
             v.push(("inverted-interval", f.is_err() || rd.read(&mut buf).is_err()));
             let mut rd = mk();
-            let f = rd.fetch("s1", 1, 0);
+            let f = rd.fetch(n0, 1, 0);
             v.push(("inverted-interval-iter", f.is_err() || rd.read_iter().is_err()));
         }
         // out of range
         let mut rd = mk();
-        let f = rd.fetch("s1", 0, len0 + 1);
+        let f = rd.fetch(n0, 0, len0 + 1);
         v.push(("stop-beyond-length", f.is_err() || rd.read(&mut buf).is_err()));
         let mut rd = mk();
         let f = rd.fetch_by_rid(0, len0 + 1, len0 + 2);
@@ -237,7 +248,7 @@ fn error_clauses(cfg: &FileCfg, cc: &mut CaseCtx) {
         v.push(("inverted-and-beyond-length", f.is_err() || rd.read(&mut buf).is_err()));
         // fetch_all
         let mut rd = mk();
-        let ok_all = rd.fetch_all("s1").is_ok() && rd.read(&mut buf).is_ok() && buf == seq_of(0, cfg.lens[0]);
+        let ok_all = rd.fetch_all(n0).is_ok() && rd.read(&mut buf).is_ok() && buf == seq_of(0, cfg.lens[0]);
         v.push(("fetch_all", ok_all));
         let mut rd = mk();
         let last = cfg.lens.len() - 1;
@@ -271,7 +282,7 @@ fn small_files(tier: Tier) -> Vec<FileCfg> {
         for crlf in [false, true] {
             for &a in l1 {
                 for &b in &[1usize, 6] {
-                    v.push(FileCfg { width: w, crlf, lens: vec![a, b], header_suffix: if (a + b + w) % 2 == 0 { String::new() } else { " some description".into() } });
+                    v.push(FileCfg { width: w, crlf, lens: vec![a, b], header_suffix: if (a + b + w) % 2 == 0 { String::new() } else { " some description".into() }, names: match (a + w) % 3 { 0 => vec![], 1 => vec!["#1".into(), "chr|2;x".into()], _ => vec!["\u{e9}".into(), "\"q\"x".into()] } });
                 }
             }
         }
@@ -283,7 +294,7 @@ fn wide_files() -> Vec<FileCfg> {
     let mut v = vec![];
     for &w in &[60usize, 511, 512, 513, 600] {
         for crlf in [false, true] {
-            v.push(FileCfg { width: w, crlf, lens: vec![1300, 700], header_suffix: String::new() });
+            v.push(FileCfg { width: w, crlf, lens: vec![1300, 700], header_suffix: String::new(), names: vec![] });
         }
     }
     v
